@@ -221,12 +221,54 @@ Definition lower (b : byte) : byte :=
 Definition starts_with_ci (p s : bytes) : bool :=
   bytes_eqb p (map lower (firstn (length p) s)).
 
+(** [stod] also throws (std::out_of_range) when strtod reports ERANGE: the value overflows, or it is
+    so small that the result is zero or a subnormal number - texts that librime writes itself when a
+    decayed weight underflows.  What is kept of that: the decimal order of magnitude of the leading
+    non-zero digit; a value is taken as out of range when that is beyond +-308.  (The exact
+    borders - DBL_MAX = 1.797e308, DBL_MIN = 2.225e-308 - lie inside the decade; the generated
+    values stay clear of those two decades.) *)
+Fixpoint span_digits (s : bytes) : bytes * bytes :=
+  match s with
+  | b :: r => if is_digit b then let (d, t) := span_digits r in (b :: d, t) else ([], s)
+  | [] => ([], [])
+  end.
+Fixpoint drop_zeros (s : bytes) : bytes :=
+  match s with b :: r => if Byte.eqb b x30 then drop_zeros r else s | [] => [] end.
+Definition digits_to_Z (d : bytes) : Z := fold_left (fun a b => (a * 10 + Z.of_N (digit_val b))%Z) d 0%Z.
+Definition dec_magnitude (s : bytes) : option Z :=
+  let (ip, r1) := span_digits s in
+  let (fp, r2) := match r1 with
+                  | b :: r => if Byte.eqb b x2e then span_digits r else ([], r1)
+                  | [] => ([], [])
+                  end in
+  let ex := match r2 with
+            | b :: r =>
+                if Byte.eqb (lower b) x65 then
+                  let (neg, r') := take_sign r in
+                  let (ed, _) := span_digits r' in
+                  match ed with [] => 0%Z | _ => if neg then (- digits_to_Z ed)%Z else digits_to_Z ed end
+                else 0%Z
+            | [] => 0%Z
+            end in
+  match drop_zeros ip with
+  | _ :: _ as ipz => Some (Z.of_nat (length ipz) - 1 + ex)%Z
+  | [] => match drop_zeros fp with
+          | [] => None
+          | _ :: _ as fz => Some (- Z.of_nat (length fp - length fz) - 1 + ex)%Z
+          end
+  end.
+Definition stod_in_range (s : bytes) : bool :=
+  match dec_magnitude s with
+  | None => true
+  | Some e => ((-308 <=? e) && (e <=? 308))%Z
+  end.
+
 Definition stod_ok (s : bytes) : bool :=
   let (_, r) := take_sign (drop_ws s) in
   match r with
   | b :: r' =>
-      if is_digit b then true
-      else if Byte.eqb b x2e then match r' with c :: _ => is_digit c | [] => false end
+      if is_digit b then stod_in_range r
+      else if Byte.eqb b x2e then match r' with c :: _ => is_digit c && stod_in_range r | [] => false end
       else starts_with_ci [x69; x6e; x66] r || starts_with_ci [x6e; x61; x6e] r
   | [] => false
   end.
